@@ -182,6 +182,10 @@ func (u *Unit) execInstr(fr *Frame, st *State, in ssa.Instruction) {
 
 	case *ssa.MakeChan:
 		c := u.newCell(x.Type(), "chan")
+		if u.chanCap == nil {
+			u.chanCap = map[int]Term{}
+		}
+		u.chanCap[c.ID] = u.termOf(u.get(fr, x.Size))
 		fr.vals[x] = &Scalar{T: IntLit(int64(-300000 - c.ID)), Typ: x.Type(), Origin: fmt.Sprintf("chan:%d", c.ID)}
 		u.event(fr, st, "makechan", map[string]Val{"ch": fr.vals[x]}, where)
 
@@ -206,7 +210,18 @@ func (u *Unit) execInstr(fr *Frame, st *State, in ssa.Instruction) {
 			fmt.Sscanf(s.Origin, "chan:%d", &id)
 			u.sends[id] = append(u.sends[id], sendRec{st.pc, v})
 		}
-		u.event(fr, st, "send", map[string]Val{"value": v, "blocking": &Scalar{T: TTrue, Typ: types.Typ[types.Bool]}}, where)
+		// capacity of the channel when it is a local one, and how many sends this activation made on it before
+		capT, nth := u.fresh(SInt, "chancap"), TZero
+		if s, ok := ch.(*Scalar); ok && strings.HasPrefix(s.Origin, "chan:") {
+			var id int
+			fmt.Sscanf(s.Origin, "chan:%d", &id)
+			if t, ok := u.chanCap[id]; ok {
+				capT = t
+			}
+			nth = IntLit(int64(len(u.sends[id]) - 1))
+		}
+		u.event(fr, st, "send", map[string]Val{"value": v, "blocking": &Scalar{T: TTrue, Typ: types.Typ[types.Bool]},
+			"cap": &Scalar{T: capT, Typ: types.Typ[types.Int]}, "earlier": &Scalar{T: nth, Typ: types.Typ[types.Int]}}, where)
 
 	case *ssa.Select:
 		u.execSelect(fr, st, x, where)
@@ -754,6 +769,8 @@ func (u *Unit) execSelect(fr *Frame, st *State, x *ssa.Select, where string) {
 	vs[1] = &Scalar{T: recvOK, Typ: types.Typ[types.Bool]}
 	hasAfter := false
 	hasTicker := false
+	hasDone := false
+	var doneCtx Val = &Scalar{T: TZero, Typ: types.Typ[types.Int]}
 	for _, s := range x.States {
 		if s.Dir == types.SendOnly {
 			continue
@@ -764,6 +781,10 @@ func (u *Unit) execSelect(fr *Frame, st *State, x *ssa.Select, where string) {
 			}
 			if strings.HasPrefix(cs.Origin, "ticker") || cs.Origin == "field:Ticker.C" {
 				hasTicker = true
+			}
+			if strings.HasPrefix(cs.Origin, "ctxdone") && cs.Aux != nil && !hasDone {
+				hasDone = true
+				doneCtx = cs.Aux
 			}
 			if !x.Blocking && strings.HasPrefix(cs.Origin, "ctxdone") && cs.Aux != nil {
 				// default is taken only when no case is ready
@@ -776,5 +797,7 @@ func (u *Unit) execSelect(fr *Frame, st *State, x *ssa.Select, where string) {
 		"blocking": &Scalar{T: BoolLit(x.Blocking), Typ: types.Typ[types.Bool]},
 		"hasAfter": &Scalar{T: BoolLit(hasAfter), Typ: types.Typ[types.Bool]},
 		"hasTicker": &Scalar{T: BoolLit(hasTicker), Typ: types.Typ[types.Bool]},
+		"hasDone":  &Scalar{T: BoolLit(hasDone), Typ: types.Typ[types.Bool]},
+		"doneCtx":  doneCtx,
 		"index":    vs[0]}, where)
 }
